@@ -5,6 +5,7 @@
 package os
 
 import (
+	"io"
 	stdos "os"
 )
 
@@ -127,4 +128,22 @@ func Symlink(oldname, newname string) error {
 	err := stdos.Symlink(oldname, newname)
 	hook("Symlink", newname)
 	return err
+}
+
+// HookWriter is wrapped around the destination of every bufio.NewWriter / NewWriterSize call of a rewritten
+// package (by the source rewriter): when the destination is a file, every write(2) a buffered writer issues is a
+// crash point of its own - a record the writer hands to the file in several pieces can be torn between them.
+func HookWriter(w io.Writer) io.Writer {
+	if f, ok := w.(*File); ok && f != nil {
+		return &hookWriter{f: f}
+	}
+	return w
+}
+
+type hookWriter struct{ f *File }
+
+func (h *hookWriter) Write(p []byte) (int, error) {
+	n, err := h.f.Write(p)
+	hook("File.Write", h.f.Name())
+	return n, err
 }
